@@ -94,11 +94,7 @@ class Build:
         return a
 
     def codegen(self):
-        lock = os.path.join(self.crate, "Cargo.lock")
-        # the lock file is the repo's own (same dependency versions as its test suite)
-        tmp = lock + ".%d" % os.getpid()
-        shutil.copy(os.path.join(REPO, "Cargo.lock"), tmp)
-        os.replace(tmp, lock)
+        sync_lock(self.crate)
         cmd = ["cargo", "kani", "--lib", "--only-codegen", "--no-assertion-reach-checks", "-Z", "stubbing",
                "--target-dir", self.target] + self.feature_args()
         for p in self.patterns:
@@ -121,6 +117,24 @@ class Build:
 
 class SystemExit2(Exception):
     pass
+
+
+_lock_mutex = threading.Lock()
+
+
+def sync_lock(crate):
+    """the harness crate uses the repo's own Cargo.lock (same dependency versions as its test suite)"""
+    with _lock_mutex:
+        lock = os.path.join(crate, "Cargo.lock")
+        want = open(os.path.join(REPO, "Cargo.lock")).read()
+        try:
+            if open(lock).read() == want:
+                return
+        except OSError:
+            pass
+        tmp = "%s.%d.%d" % (lock, os.getpid(), threading.get_ident())
+        open(tmp, "w").write(want)
+        os.replace(tmp, lock)
 
 
 # ----------------------------------------------------------------------------
@@ -159,6 +173,7 @@ def parse_cbmc_json_stream(path):
                         n = int(m.group(3))
                         if n > unwound.get(m.group(2), 0):
                             unwound[m.group(2)] = n
+                        VISITS[m.group(2)] = VISITS.get(m.group(2), 0) + 1
                         continue
                     m = re.match(r"(Unwinding|Not unwinding) recursion (\S+) iteration (\d+)", t)
                     if m:
@@ -197,13 +212,17 @@ def trace_values(trace):
     return vals
 
 
+VISITS = {}
+
+
 class Job:
     def __init__(self, spec, build, workdir, tier):
         self.spec = spec          # registry.J
         self.build = build
         self.work = workdir
         self.tier = tier
-        self.res = {"harness": spec.harness, "status": "pending"}
+        self.tag = spec.harness if build.name == "std" else "%s@%s" % (spec.harness, build.name)
+        self.res = {"harness": self.tag, "status": "pending"}
 
     def prepare(self):
         h = self.build.harnesses.get(self.spec.harness)
@@ -216,7 +235,7 @@ class Job:
         if not want <= have:
             raise SystemExit2("harness %s: expected stubs %s missing (have %s)" % (self.spec.harness, sorted(want - have), sorted(have)))
         src = h["goto_file"].replace(".symtab.out", ".out")
-        self.goto = os.path.join(self.work, self.spec.harness + ".out")
+        self.goto = os.path.join(self.work, self.tag + ".out")
         steps = [
             ["goto-cc", src, "--function", h["mangled_name"], "-o", self.goto],
             ["goto-instrument", "--add-library", "--no-malloc-may-fail", self.goto, self.goto],
@@ -277,7 +296,8 @@ class Job:
     def run_cbmc(self, overrides, only_props=None):
         us = self.unwindset(overrides)
         self.us = us
-        cmd = ["cbmc"] + CBMC_BASE + list(self.spec.cbmc or []) + ["--unwind", str(self.spec.unwind)]
+        base = [x for x in CBMC_BASE if not (only_props and x == "--slice-formula")]  # the trace of a sliced formula omits irrelevant inputs
+        cmd = ["cbmc"] + base + list(self.spec.cbmc or []) + ["--unwind", str(self.spec.unwind)]
         if us:
             cmd += ["--unwindset", ",".join("%s:%d" % kv for kv in sorted(us.items()))]
         cmd += [self.goto, "--verbosity", "8", "--json-ui"]
@@ -286,7 +306,7 @@ class Job:
         for pr in (only_props or []):
             cmd += ["--property", pr]
         self.cbmc_cmd = cmd
-        out = os.path.join(self.work, self.spec.harness + ".cbmc.json")
+        out = os.path.join(self.work, self.tag + ".cbmc.json")
         timeout = self.spec.timeout_t if self.tier == "thorough" else self.spec.timeout_q
         timeout = int(timeout * float(os.environ.get("VERIF_TIME_SCALE", "1")))
         rc, _, secs, to = run(cmd, timeout=timeout, mem_gb=self.spec.mem_gb, out=out)
@@ -341,8 +361,10 @@ class Job:
                 if result is None:
                     break
                 verdict = self.classify(result)
-                if verdict == "failed" and any(not f.get("vals") for f in self.res["failures"]):
-                    # big instances run without --trace: fetch the counterexamples of the failed properties only
+                if verdict == "failed":
+                    # counterexamples: re-run the failed properties only, with --trace and without formula
+                    # slicing (a sliced trace omits the inputs that do not matter, and the native replay
+                    # needs every kani::any() value in call order)
                     want = [f["property"] for f in self.res["failures"][:3]]
                     saved = dict(self.res)
                     res2 = self.run_cbmc(overrides, only_props=want)
@@ -564,6 +586,11 @@ def main():
     except SystemExit2 as e:
         log("MACHINERY-ERROR", e)
         rc = 2
+    except Exception:
+        import traceback
+        traceback.print_exc()
+        log("MACHINERY-ERROR unexpected exception (exit 2: inconclusive, not a verdict)")
+        rc = 2
     finally:
         if not a.keep:
             shutil.rmtree(scratch, ignore_errors=True)
@@ -625,12 +652,12 @@ def drive(pid, prop, a, seed, scratch, t0):
                 state["running"] -= 1
                 cv.notify_all()
         log("  %-44s %-8s %6.1fs  props=%s steps=%s solver=%ss %s" % (
-            job.spec.harness, r["status"], r.get("wall_s", 0), r.get("properties"), r.get("ssa_steps"), r.get("solver_s"),
+            job.tag, r["status"], r.get("wall_s", 0), r.get("properties"), r.get("ssa_steps"), r.get("solver_s"),
             (r.get("detail", "") or "; ".join("%s @%s" % (f["description"], f["location"].split("/")[-1]) for f in r.get("failures", [])[:4]))[:400].replace("\n", " ")))
         if os.environ.get("VERIF_SHOW_LOOPS"):
             for lp in getattr(job, "loops", []):
                 fn = lp.get("sourceLocation", {}).get("function", "") or lp["name"]
-                log("      loop %-110s bound=%s unwound=%s" % (fn[:110], getattr(job, "us", {}).get(lp["name"]), r.get("unwound_all", {}).get(lp["name"])))
+                log("      loop %-110s bound=%s unwound=%s visits=%s" % (fn[:110], getattr(job, "us", {}).get(lp["name"]), r.get("unwound_all", {}).get(lp["name"]), VISITS.get(lp["name"])))
         return r
 
     with ThreadPoolExecutor(max_workers=max(1, min(a.jobs, len(jobs)))) as ex:
@@ -643,7 +670,7 @@ def drive(pid, prop, a, seed, scratch, t0):
         if r["status"] == "ok":
             continue
         if r["status"] != "failed":
-            inconclusive.append((job.spec.harness, r["status"], r.get("detail", "")))
+            inconclusive.append((job.tag, r["status"], r.get("detail", "")))
             continue
         tests = [{"class": f["class"], "description": f["description"], "vals": [bytes.fromhex(x) for x in f.get("vals", [])]} for f in r.get("failures", [])]
         if not tests:
@@ -715,7 +742,7 @@ def write_evidence(pid, prop, tier, seed, jobs, results, builds, pre, violations
     fns = sorted(set(f for r in results for f in r.get("functions_repo", [])))
     samples = []
     for j, r in zip(jobs, results):
-        samples.append({"harness": j.spec.harness, "bound": j.spec.desc, "status": r["status"], "properties": r.get("properties"),
+        samples.append({"harness": j.tag, "bound": j.spec.desc, "status": r["status"], "properties": r.get("properties"),
                         "cover_witnesses": r.get("covers_satisfied", [])[:6], "replays": r.get("replays", [])[:3]})
     traces = sum(len(r.get("replays", [])) for r in results) + sum(v.get("validated", 0) for v in pre.values() if isinstance(v, dict))
     cov = {
@@ -769,7 +796,7 @@ def replay_file(path):
     os.makedirs(scratch, exist_ok=True)
     try:
         b = Build(d["cfg"], scratch, [])
-        shutil.copy(os.path.join(REPO, "Cargo.lock"), os.path.join(b.crate, "Cargo.lock"))
+        sync_lock(b.crate)
         rep = replay_native(b, scratch, d["harness"], [bytes.fromhex(v) for v in d["vals"]])
         for prof, r in rep.items():
             print("== %s: reproduced=%s rc=%s" % (prof, r["reproduced"], r["rc"]))
